@@ -101,7 +101,7 @@ def r07_3(rep, M, rid):
         raise AnalysisError(f"_get_wyckoff_sets: expected one `<set>.indices.append(i_atom)`, found {len(appends)}")
     a = appends[0]
     at = fl.node_of(a)
-    loops = [t for t, pol in fl.cfg.branch_conditions(at) if isinstance(t, ast.For)]
+    loops = [t for t, pol in fl.cfg.branch_conditions(at) if isinstance(t, ast.For) and pol is True]
     ok = False
     if loops:
         lp = loops[-1]
@@ -167,6 +167,11 @@ def run(rep, ctx):
         r07_3(rep, M, "R07.3")
     with rep.guard("R07.4"):
         SR.index_spaces(rep, M, "R07.4")
+        SR.orbit_source(rep, M, "R07.4")
+    rep.rule("R07.5", "every memoised result of the analyzer is dropped by reset(), which set_system() calls (no answers for a previous structure)")
+    with rep.guard("R07.5"):
+        from .. import symrules as _SR
+        _SR.reset_covers_caches(rep, ctx.model, "R07.5")
     rep.floor("R07.1", 6000)
     rep.floor("R07.2", 4)
     rep.floor("R07.3", 7)
